@@ -1,5 +1,5 @@
 From Coq Require Import ZArith List Lia Bool.
-Require Import MixDP.
+Require Import Actions Mixed MixDP.
 Import ListNotations.
 Open Scope Z_scope.
 
@@ -256,7 +256,7 @@ Proof.
 Qed.
 
 Theorem C16_table n s : 1 <= n -> 0 <= s ->
-  exists t, tabulate n s = Ok t /\ forall ni si, 1 <= ni <= n -> 1 <= si <= s -> cells t ni si = Some (planC ni si).
+  exists t, tabulate n s = Ok t /\ forall ni si, 1 <= ni <= n -> (1 <= si <= s \/ ni = 1 /\ 0 <= si <= s) -> cells t ni si = Some (planC ni si).
 Proof.
   intros Hn Hs. unfold tabulate. replace (n <? 1) with false by (symmetry; apply Z.ltb_ge; lia).
   set (t0 := {| dimn := n; dims := s; cells := fun _ _ => None |}).
